@@ -69,7 +69,14 @@ class CompositeOperation(Generic[OperationType]):
         Displacement
             The combined operation to perform on the atoms.
         """
-        return np.sum([op.calculate(context) for op in self.operations], axis=0)
+        results = [op.calculate(context) for op in self.operations]
+
+        # parts may return one displacement for the whole group, shape (1, 3), or one per atom, shape (n, 3)
+        total = results[0]
+        for result in results[1:]:
+            total = np.add(total, result)
+
+        return total
 
     @overload
     def __add__(
